@@ -243,9 +243,9 @@ func c06Carriers() []c06Carrier {
 }
 
 func c06Levels(tier string) []core.Level {
-	maxNest := 3
+	maxNest, maxLen := 3, 8
 	if thorough(tier) {
-		maxNest = 4
+		maxNest, maxLen = 5, 16
 	}
 	lv := []core.Level{
 		{Name: "if / elseif / else chains with <= 3 conditions: every assignment of 7 values x presence of else", Gen: func(emit func(core.Case)) {
@@ -293,7 +293,7 @@ func c06Levels(tier string) []core.Level {
 		}},
 		{Name: "one loop printing key, value and all loop metadata: 13 carriers x lengths 0..8 x key variable x else", Gen: func(emit func(core.Case)) {
 			for ci, c := range c06Carriers() {
-				for n := 0; n <= 8; n++ {
+				for n := 0; n <= maxLen; n++ {
 					if _, _, _, _, ok := c.mk(n); !ok {
 						continue
 					}
@@ -571,8 +571,8 @@ func init() {
 	core.Register(&core.Check{
 		ID:       "C06",
 		Category: "exploration",
-		Rule: "if/elseif/else chains with <= 3 conditions over every assignment of 7 condition values (true,false,0,1,'','a',null) x else; nested chains to depth 3 over every truth assignment; one loop printing key, value and all loop metadata over 13 carriers (array / string array / hash literals, ranges, Go []int, []string, [N]int, *[]int, []Value, single-entry map, null) x lengths 0..8 x key variable x else; " +
-			"nested loops to depth 3 (thorough 4) over lengths 0..3 printing index chains through loop.parent, and the same with one key/value name shared by all depths and the context; inline 'if' with every subset of a length <= 5 sequence as satisfying set; non-iterables must fail; loop/branch mixes. Expectations are computed by the generator. distinct = distinct (template, context); non-trivial = all",
+		Rule: "if/elseif/else chains with <= 3 conditions over every assignment of 7 condition values (true,false,0,1,'','a',null) x else; nested chains to depth 3 over every truth assignment; one loop printing key, value and all loop metadata over 13 carriers (array / string array / hash literals, ranges, Go []int, []string, [N]int, *[]int, []Value, single-entry map, null) x lengths 0..8 (thorough 0..16) x key variable x else; " +
+			"nested loops to depth 3 (thorough 5) over lengths 0..3 printing index chains through loop.parent, and the same with one key/value name shared by all depths and the context; inline 'if' with every subset of a length <= 5 sequence as satisfying set; non-iterables must fail; loop/branch mixes. Expectations are computed by the generator. distinct = distinct (template, context); non-trivial = all",
 		Assumptions: []string{
 			"loop.parent is the enclosing loop's metadata (loop.parent.index), as pinned by the repository's own test 'For loop with inner loop'",
 			"loop metadata under an inline 'if' and 'else' after a non-empty filtered loop are not claimed (they differ between Twig versions)",
